@@ -236,7 +236,7 @@ def run_mqtt(ops) -> dict:
         import json
 
         pubs = [(t, json.loads(p)["msg"]) for t, _, p in tr.client.published]
-        return {"pubs": pubs, "calls": calls, "maxasleep": maxasleep[0], "sequential": not any(o[3] for o in ops), "done": main.done() and all(t.done() for t in tasks), "loop_exc": [str(c.get("exception"))[:100] for c in loop.exc]}
+        return {"pubs": pubs, "calls": calls, "maxasleep": maxasleep[0], "sequential": not any(o[3] for o in ops), "arrivals": all(o[1] == 1 and o[0] > 0 for o in ops), "done": main.done() and all(t.done() for t in tasks), "loop_exc": [str(c.get("exception"))[:100] for c in loop.exc]}
     finally:
         _time.perf_counter = real_pc
         for t in asyncio.all_tasks(loop):
@@ -264,7 +264,7 @@ def judge_mqtt(ops, r: dict) -> list[tuple[str, str]]:
             if (j - i + 1) > MQTT_RATE * dt_ + 2 * MQTT_TOKENS + 1 + EPS:
                 out.append(("C11:mqtt:token-allowance-exceeded", f"{ops}: {j - i + 1} publishes in {dt_:.1f}s from #{i}"))
                 return out
-    if r["maxasleep"] > 3 and r.get("sequential"):
+    if r["maxasleep"] > 3 and (r.get("sequential") or r.get("arrivals")):
         out.append(("C11:mqtt:writes-queued-without-bound", f"{ops}: {r['maxasleep']} writes pending at once from sequential callers"))
     return out
 
@@ -291,7 +291,7 @@ def sequences(quick: bool):
             yield s
     # sustained streams far above the MQTT limit (over-budget writes must be dropped, and dropping must not earn credit)
     for period, count in ((0.01, 6000), (0.1, 3000), (0.5, 1200)):
-        yield ("mqtt-only",) + tuple((period, 1, 8, False) for _ in range(count))
+        yield ("mqtt-only",) + tuple((period, 1, 8, True) for _ in range(count))  # independent arrivals
     # steady streams below / at / above the limit, then a burst (what depth-2 sequences of bursts cannot express)
     for period in (1.0, 2.0, 3.3, 4.0):
         for ln in (1, 8, 48):
